@@ -53,6 +53,56 @@ def key_of(sp):
     return (t.xml_value if hasattr(t, "xml_value") else PP_PLACEHOLDER.to_xml(t), sp.ph_idx, sp.ph_orient == "vert", sp.ph_sz)
 
 
+MASTER_TYPE = {"title": "title", "ctrTitle": "title", "dt": "dt", "ftr": "ftr", "sldNum": "sldNum", "body": "body", "chart": "body",
+               "clipArt": "body", "dgm": "body", "media": "body", "obj": "body", "pic": "body", "subTitle": "body", "tbl": "body"}
+
+
+def xfrm_of(sp):
+    """(x, y, cx, cy) read directly from p:spPr/a:xfrm of a placeholder element; None per missing value"""
+    spPr = sp.find("{%s}spPr" % P_NS)
+    xfrm = spPr.find("{%s}xfrm" % A_NS) if spPr is not None else None
+    if xfrm is None:
+        return (None, None, None, None)
+    off, ext = xfrm.find("{%s}off" % A_NS), xfrm.find("{%s}ext" % A_NS)
+    gi = lambda e, a: None if e is None or e.get(a) is None else int(e.get(a))  # noqa: E731
+    return (gi(off, "x"), gi(off, "y"), gi(ext, "cx"), gi(ext, "cy"))
+
+
+def expected_geometry(own, idx, lay_rows, mas_rows):
+    out = []
+    for a in range(4):
+        v = own[a]
+        if v is None:
+            lay = next(((t, x) for i, t, x in lay_rows if i == idx), None)
+            if lay is not None:
+                v = lay[1][a]
+                if v is None and lay[0] in MASTER_TYPE:
+                    m = next((x for t, x in mas_rows if t == MASTER_TYPE[lay[0]]), None)
+                    v = None if m is None else m[a]
+        out.append(v)
+    return tuple(out)
+
+
+def gen_notes_master(rng, prs):
+    """rewrite the placeholders of the notes master (XML level, to build the INPUT): seeded order, duplicates, every
+    notes placeholder type"""
+    from pptx.oxml import parse_xml
+
+    nm = prs.notes_master
+    spTree = nm.shapes._spTree
+    for sp in list(spTree.iter_ph_elms()):
+        spTree.remove(sp)
+    types = [rng.choice(["hdr", "dt", "sldImg", "body", "ftr", "sldNum"]) for _ in range(rng.randint(0, 7))]
+    for i, ty in enumerate(types):
+        geom = "" if rng.random() < 0.2 else f'<a:xfrm><a:off x="{rng.choice([0, rng.randint(0, 10**6)])}" y="{rng.choice([0, rng.randint(0, 10**6)])}"/><a:ext cx="{rng.randint(1, 10**6)}" cy="{rng.randint(1, 10**6)}"/></a:xfrm>'
+        idx = rng.choice(["", f' idx="{i + 1}"'])
+        sz = rng.choice(["", ' sz="quarter"'])
+        xml = (f'<p:sp xmlns:p="{P_NS}" xmlns:a="{A_NS}"><p:nvSpPr><p:cNvPr id="{i + 2}" name="{rng.choice(["Notes Placeholder", "Slide Image Placeholder", "P"])} {rng.randint(1, 5)}"/><p:cNvSpPr/>'
+               f'<p:nvPr><p:ph type="{ty}"{sz}{idx}/></p:nvPr></p:nvSpPr><p:spPr>{geom}</p:spPr>'
+               + ("" if ty == "sldImg" else '<p:txBody><a:bodyPr/><a:lstStyle/><a:p/></p:txBody>') + '</p:sp>')
+        spTree.append(parse_xml(xml))
+
+
 def gen_layout_population(rng, layout):
     """rewrite the placeholders of a layout (XML level, to build the INPUT deck)"""
     from pptx.oxml import parse_xml
@@ -70,7 +120,7 @@ def gen_layout_population(rng, layout):
         idx = rng.choice([None, i + 10, i + 10, 0, 4294967295 if rng.random() < 0.05 else i + 20])
         orient = ' orient="vert"' if rng.random() < 0.2 else ""
         sz = rng.choice(["", "", ' sz="half"', ' sz="quarter"'])
-        geom = "" if rng.random() < 0.3 else f'<a:xfrm><a:off x="{rng.randint(0, 10**6)}" y="{rng.randint(0, 10**6)}"/><a:ext cx="{rng.randint(1, 10**6)}" cy="{rng.randint(1, 10**6)}"/></a:xfrm>'
+        geom = "" if rng.random() < 0.3 else f'<a:xfrm><a:off x="{rng.choice([0, rng.randint(0, 10**6)])}" y="{rng.choice([0, rng.randint(0, 10**6)])}"/><a:ext cx="{rng.randint(1, 10**6)}" cy="{rng.randint(1, 10**6)}"/></a:xfrm>'
         name = rng.choice(["Title %d" % rng.randint(1, 9), "Text Placeholder %d" % rng.randint(1, 9), "Content Placeholder 2", "P%d" % i, "Picture Placeholder %d" % rng.randint(1, 9)])
         typ = "" if ty == "obj" and rng.random() < 0.5 else f' type="{ty}"'
         xml = (f'<p:sp xmlns:p="{P_NS}" xmlns:a="{A_NS}"><p:nvSpPr><p:cNvPr id="{i + 2}" name="{name}"/><p:cNvSpPr><a:spLocks noGrp="1"/></p:cNvSpPr>'
@@ -118,24 +168,29 @@ def check_add_slide(ctx, prs, layout, rng, label, lines, impl, metas):
     lines.append(line)
     impl.append(";".join(f"{sp.shape_id}/{enc(sp.nvSpPr.cNvPr.get('name'))}" for sp in got) or "!")
     metas.append(case)
-    # inheritance: each slide placeholder reports its layout counterpart's geometry (or the master's)
+    # inheritance: each slide placeholder reports, per attribute, its own value, else that of the FIRST layout
+    # placeholder with the same idx, else that of the FIRST master placeholder of the mapped type -- computed here from
+    # the raw XML (not through the library's layout objects) and by the Lean model
+    lay_rows = [(sp.ph_idx, key_of(sp)[0], xfrm_of(sp)) for sp in layout.shapes._spTree.iter_ph_elms()]
+    mas_rows = [(key_of(sp)[0], xfrm_of(sp)) for sp in layout.slide_master.shapes._spTree.iter_ph_elms()]
     for ph in slide.placeholders:
-        lp = None
-        for cand in layout.placeholders:
-            if cand.element.ph_idx == ph.element.ph_idx:
-                lp = cand
-                break
-        if lp is None:
-            continue
-        want = (lp.left, lp.top, lp.width, lp.height)
+        own = xfrm_of(ph.element)
         gotg = (ph.left, ph.top, ph.width, ph.height)
+        for a, attr in enumerate(("left", "top", "width", "height")):
+            o = lambda v: "n" if v is None else str(int(v))  # noqa: E731
+            lines.append("c13.rep %s %d %s %s" % (o(own[a]), ph.element.ph_idx,
+                                                  ";".join(f"{i}/{enc(t)}/{o(x[a])}" for i, t, x in lay_rows) or "!",
+                                                  ";".join(f"{enc(t)}/{o(x[a])}" for t, x in mas_rows) or "!"))
+            impl.append(o(gotg[a])); metas.append(dict(case, attr=attr, idx=ph.element.ph_idx))
+        want = expected_geometry(own, ph.element.ph_idx, lay_rows, mas_rows)
         if gotg != want:
-            ctx.fail("inherited-geometry", f"{label}/{layout.name}: placeholder idx={ph.element.ph_idx} reports {gotg}, its layout counterpart {want}", case)
-        if rng.random() < 0.2 and None not in want:
-            # "until overridden": assigning the four values makes the placeholder report them
-            ph.left, ph.top, ph.width, ph.height = want[0] + 7, want[1] + 5, want[2] + 3, want[3] + 1
-            if (ph.left, ph.top, ph.width, ph.height) != (want[0] + 7, want[1] + 5, want[2] + 3, want[3] + 1):
-                ctx.fail("override-geometry", f"{label}/{layout.name}: overridden geometry is not reported", case)
+            ctx.fail("inherited-geometry", f"{label}/{layout.name}: placeholder idx={ph.element.ph_idx} reports {gotg}; own/layout/master XML gives {want}", case)
+        if rng.random() < 0.3:
+            # "until overridden": assigning values (0 included) makes the placeholder report them
+            new = tuple(rng.choice([0, 0, 7, rng.randint(0, 10**6)]) for _ in range(4))
+            ph.left, ph.top, ph.width, ph.height = new
+            if (ph.left, ph.top, ph.width, ph.height) != new:
+                ctx.fail("override-geometry", f"{label}/{layout.name}: geometry overridden with {new} reads {(ph.left, ph.top, ph.width, ph.height)}", case)
     if list(prs.slides)[-1].slide_id != slide.slide_id or len(prs.slides) != n_before + 1:
         ctx.fail("slide-not-last", f"{label}/{layout.name}: new slide is not the last in presentation order", case)
     if slide.slide_layout.part is not layout.part:
@@ -161,6 +216,18 @@ def check_notes(ctx, prs, slide, label):
     ctx.case(key=(label, "notes", slide.slide_id)); ctx.count("notes_slide")
     if got != want:
         ctx.fail("notes-not-mirrored", f"{label}: notes slide placeholders {got}, notes master's cloneable placeholders {want}", case)
+    names = [sp.nvSpPr.cNvPr.get("name") for sp in ns.shapes._spTree.iter_ph_elms()]
+    if len(set(names)) != len(names):
+        ctx.fail("notes-placeholder-names-not-unique", f"{label}: names {names}", case)
+    mas_rows = [(key_of(sp)[0], xfrm_of(sp)) for sp in nm.shapes._spTree.iter_ph_elms()]
+    for ph in ns.placeholders:
+        ty = key_of(ph.element)[0]
+        own = xfrm_of(ph.element)
+        m = next((x for t, x in mas_rows if t == ty), (None,) * 4)
+        want_g = tuple(own[a] if own[a] is not None else m[a] for a in range(4))
+        got_g = (ph.left, ph.top, ph.width, ph.height)
+        if got_g != want_g:
+            ctx.fail("notes-inherited-geometry", f"{label}: notes placeholder {ty} reports {got_g}; own/notes-master XML gives {want_g}", case)
 
 
 def correspond(ctx):
@@ -196,7 +263,10 @@ def correspond(ctx):
                 break
             if rng.random() < 0.4:
                 slide.shapes.add_textbox(0, 0, 9, 9).text_frame.text = "edit"
-            if rng.random() < 0.2:
+            if rng.random() < 0.35:
+                if rng.random() < 0.7 and not slide.has_notes_slide:
+                    gen_notes_master(rng, prs)
+                    ctx.count("generated-notes-master")
                 check_notes(ctx, prs, slide, f"generated#{gi}")
     # the sldImg case (schema-permitted on a layout, not seen in practice)
     prs = Presentation(); layout = prs.slide_layouts[6]
